@@ -1,6 +1,8 @@
 import Infretis.Model.Proto
 import Infretis.Model.Template
 import Infretis.Model.TemplateCp2k
+import Infretis.Model.TemplateCp2kRepaired
+import Infretis.Model.TemplateRepaired
 import Infretis.Model.Codec
 import Infretis.Model.CodecUni
 import Infretis.Model.CodecLmp
@@ -13,6 +15,12 @@ open Infretis.Proto
     `boxdata`/`cp2kbox` CodecBoxData -/
 def handle (toks : List String) : String :=
   match Infretis.Template.handle toks with
+  | some r => r
+  | none =>
+  match Infretis.Template.handleR toks with
+  | some r => r
+  | none =>
+  match Infretis.Cp2k.handleR toks with
   | some r => r
   | none =>
   match Infretis.Cp2k.handle toks with
